@@ -861,9 +861,12 @@ const DIRS: [&str; 10] = [
 const BASES: [&str; 8] = ["main.rs", "lib.c", "util.h", "mod.rs", "a.cpp", "Ünï.rs", "x", "passwd"];
 
 fn gen_plain_path(rng: &mut Rng) -> String {
-    match rng.below(12) {
+    match rng.below(14) {
         0 => "/etc/passwd".to_string(),
         1 => rng.pick(&BASES).to_string(),
+        // jitdump-style URLs as raw paths: wholesym's policy turns them into URL fetches
+        12 => "https://example.org/static/app.js".to_string(),
+        13 => format!("http://cdn.example/{}", rng.pick(&BASES)),
         _ => {
             let d = *rng.pick(&DIRS);
             let sep = if d.contains('\\') { "\\" } else { "/" };
